@@ -107,6 +107,10 @@ class DstZone(datetime.tzinfo):
 DST_ZONES = [DstZone("CET", "CEST", 60, 120), DstZone("EST", "EDT", -300, -240), DstZone("ACST", "ACDT", 570, 630, south=True),
              DstZone("NST", "NDT", -210, -150)]
 STR_ALPHA = string.ascii_letters + string.digits + " .,;:-_/()#'\"&<>éü€"
+# text at the edges of Unicode: sequences that normalisation (NFC / NFKC) would change, other scripts, non-ASCII digits and blanks inside,
+# an astral character; values must reach the model and the wire code point for code point
+EDGE_TEXT = ["Cafe\u0301", "n\u0303o", "\u1112\u1161\u11ab\u1100\u1173\u11af", "\u212b\u2126", "\ufa10", "a\u0323\u0301b", "q\u0307\u0323",
+             "\uff11\uff12\uff13", "\u0663\u0664", "x\u00a0y", "x\u3000y", "\U0001d518\U0001f600", "\u6f22\u5b57", "\u0416\u0438", "\ufb01n", "\u1e9b\u0323"]
 
 
 def gen_value(ctx, conv, rng):
@@ -119,6 +123,9 @@ def gen_value(ctx, conv, rng):
         n = conv.length or 12
         k = rng.randint(1, min(n, 12)) if rng.random() < 0.9 else n
         s = "".join(rng.choice(STR_ALPHA) for _ in range(k)).strip()
+        if rng.random() < 0.12:
+            e = rng.choice(EDGE_TEXT)
+            s = (s[:max(0, n - len(e))] + e)[:n].strip() or "x"
         if ENTITY_VALUES and rng.random() < 0.12 and (conv.length is None or conv.length >= 12):
             # the HELD value shall contain entity-looking text such as '&lt;' (String.convert un-escapes what it is given once)
             ent = rng.choice(["&amp;lt;", "&amp;gt;", "&amp;amp;", "&amp;quot;", "&amp;nbsp;", "&amp;#39;", "&amp;apos;"])
@@ -133,6 +140,8 @@ def gen_value(ctx, conv, rng):
     if type(conv) is T.Decimal:
         q = conv.scale
         digits = rng.randrange(0, 10 ** rng.randint(1, 8))
+        if q is None and rng.random() < 0.06:      # more significant digits than the decimal context's precision (28): held exactly
+            digits = rng.randrange(10 ** 28, 10 ** rng.randint(29, 31))
         if q is not None:
             e = q.as_tuple().exponent
         else:
